@@ -5,17 +5,11 @@
                                                try_emplace inserts at the lower bound if absent)
   `ordered = true`  models `jsoncons::ojson` (ordered_json_object: linear find, try_emplace appends).
 -/
-import JV.Basic.JVal
+import JV.Model.Object
 namespace JV
 namespace Model
 
 open Assoc
-
-/-- `object.try_emplace(k, v)`: no effect when the key is present. -/
-def tryEmplace (ordered : Bool) (k : Bytes) (v : JVal) (ms : List (Bytes × JVal)) : List (Bytes × JVal) :=
-  match find k ms with
-  | some _ => ms
-  | none => if ordered then ms ++ [(k, v)] else insertSorted k v ms
 
 mutual
   /-- `detail::apply_merge_patch_(target, patch)` (mergepatch.hpp:54-86) -/
